@@ -1234,6 +1234,12 @@ func replay(c *vf.Ctx) {
 	if err := c.LoadReplay(&probe); err == nil && probe.Part == "conc" {
 		concReplay(c, &probe)
 		return
+	} else if err == nil && probe.Part == "disc" {
+		var dr discRec
+		if c.LoadReplay(&dr) == nil {
+			discReplay(c, &dr)
+		}
+		return
 	} else if err == nil && probe.Part == "realms" {
 		var rr realmRec
 		if c.LoadReplay(&rr) == nil {
@@ -1280,7 +1286,7 @@ func run(c *vf.Ctx) {
 		replay(c)
 		return
 	}
-	c.SetRule("one evaluation = one operation of a seeded sequential history (20-60 ops, a third preceded by a fill of the key set, of Set/Add, Delete, Get, Has, Size, Stream, Root, Commit, Reopen-after-Commit (what is called first on the restored instance varies: nothing / one accessor / Size+Root / full comparison, the first call being each of Size, Root, Has, Get, Stream, Set/Add, Delete, Commit, WasRestoredFromStorage; full comparisons then happen later), several Commits on one instance incl. contents returning to an earlier committed state, Probe; 70% map / 30% set flavour; key subsets of a 25-key alphabet whose groups share 8-20 (thorough: 8-22) leading SHA-256 path bits, plus the empty key; values nil-encoded, []byte{}, 1 byte, 100 bytes; half of the map histories never use a nil-encoded value) executed on ads over mapdb and compared with a plain map; every Root observation is entered in a run-wide contents<->root table. distinct_nontrivial = distinct non-empty content sets whose Root was compared with at least two other, differently ordered op sequences reaching the same contents (sorted rebuild and shuffled rebuild with overwrite/delete-reinsert/foreign-key/commit noise); distinct_cross_history_content_sets = content sets reached by two different generated histories. Part conc (conc.go): seeded concurrent histories (3-5 goroutines x 4-10 operations of Set/Add, Delete, Get, Has, Size, Root, Stream, Commit, WasRestoredFromStorage over 4 keys, unique values of 2-6000 bytes, four method-weight profiles, set-ups fresh / committed / committed+dirty / restored / restored+dirty, a family without Delete) recorded at the client boundary and decided by porcupine against the same map model extended by the contents at the last Commit (Root through rootOf(contents) computed on fresh sequential instances, Stream and Size as atomic snapshots, a new instance opened over the store at the end must hold the last committed contents), run in a plain and in a -race child; plus deterministic windows judged with goroutine snapshots: Stream parked in its callback on the first pair, Commit parked at every store write it performs and in the root serializer, while a writer performs 2-3 Set/Delete, followed by a new instance over a copy of the store taken when Commit returned")
+	c.SetRule("one evaluation = one operation of a seeded sequential history (20-60 ops, a third preceded by a fill of the key set, of Set/Add, Delete, Get, Has, Size, Stream, Root, Commit, Reopen-after-Commit (what is called first on the restored instance varies: nothing / one accessor / Size+Root / full comparison, the first call being each of Size, Root, Has, Get, Stream, Set/Add, Delete, Commit, WasRestoredFromStorage; full comparisons then happen later), several Commits on one instance incl. contents returning to an earlier committed state, Probe; 70% map / 30% set flavour; key subsets of a 25-key alphabet whose groups share 8-20 (thorough: 8-22) leading SHA-256 path bits, plus the empty key; values nil-encoded, []byte{}, 1 byte, 100 bytes; half of the map histories never use a nil-encoded value) executed on ads over mapdb and compared with a plain map; every Root observation is entered in a run-wide contents<->root table. distinct_nontrivial = distinct non-empty content sets whose Root was compared with at least two other, differently ordered op sequences reaching the same contents (sorted rebuild and shuffled rebuild with overwrite/delete-reinsert/foreign-key/commit noise); distinct_cross_history_content_sets = content sets reached by two different generated histories. Part conc (conc.go): seeded concurrent histories (3-5 goroutines x 4-10 operations of Set/Add, Delete, Get, Has, Size, Root, Stream, Commit, WasRestoredFromStorage over 4 keys, unique values of 2-6000 bytes, four method-weight profiles, set-ups fresh / committed / committed+dirty / restored / restored+dirty, a family without Delete) recorded at the client boundary and decided by porcupine against the same map model extended by the contents at the last Commit (Root through rootOf(contents) computed on fresh sequential instances, Stream and Size as atomic snapshots, a new instance opened over the store at the end must hold the last committed contents), run in a plain and in a -race child; plus deterministic windows judged with goroutine snapshots: Stream parked in its callback on the first pair, Commit parked at every store write it performs and in the root serializer, while a writer performs 2-3 Set/Delete, followed by a new instance over a copy of the store taken when Commit returned. Part disc (disc.go): seeded sequential histories (25-55 steps over 3-7 of 13 keys incl. the empty key and keys that are byte prefixes of each other) on three instantiations with reference-typed keys/values and copying codecs (K=[]byte,V=[]byte; K=string,V=*struct{scalar,slice}; set with K=[]byte), every argument passed in ONE caller buffer/object that is checked and overwritten after each call, a third with a key encoder that encodes into one scratch buffer; \"held\" histories keep every Get result and every key/value a Stream consumer received together with a deep copy, re-compare them after each of the next 1-5 steps and then scribble on them (also inside the consumer) before the instance is judged again; \"fail\" histories make the n-th invocation of one codec (key/value encoder/decoder, root encoder, root decoder while opening) or of the Stream consumer return an error or panic in 40% of the operations, audit the instance at once against the model in which the failed operation did nothing (Size, Has/Get of every key, Stream pairs, pair count == Size, Root == root of the model contents on a fresh instance), open a read-only probe instance after a failed Commit, go on, and end with Commit + reopen + audit; every 5th codec/consumer invocation calls WasRestoredFromStorage on the same instance; the children are plain builds without timers, so a lock left held or a new self dead-lock ends them through the runtime dead-lock detector; child disc-reentry probes every (outer method, callback site, inner method) combination on a goroutine-snapshot actor and records which self-dead-lock")
 	t0 := time.Now()
 	e := &explorer{c: c, alphabet: buildAlphabet(c), hashes: map[string][32]byte{}, tables: map[string]*table{"map": newTable(), "set": newTable()}}
 	for _, k := range e.alphabet {
@@ -1322,7 +1328,14 @@ func run(c *vf.Ctx) {
 	c.Require("max_trie_depth", 15)
 	realmsPart(c)
 	concPart(c)
+	discPart(c)
 	c.Assume("the plain Go map model and SHA-256 are correct; mapdb is the store under ads (faults of the store are not injected here)")
 }
 
-func main() { vf.Main("C09", "exploration", run, concChildDispatch) }
+func main() {
+	vf.Main("C09", "exploration", run, func(c *vf.Ctx) {
+		if !discChildDispatch(c) {
+			concChildDispatch(c)
+		}
+	})
+}
